@@ -120,6 +120,10 @@ def run(ctx):
             (a, b) = _replay_behs(ctx, vd, cap, behs, "scr%d" % si, 12 if quick else 60)
             nb += a
             hits += b
+            # the same schedules on the grammar whose start rule is silent (same entries, other bookkeeping)
+            (a, b) = _replay_behs(ctx, vd, cap, behs, "scrs%d" % si, 6 if quick else 30, grammar=SILENT_TOP)
+            nb += a
+            hits += b
             nscripts += 1
     ne = _entries(ctx, quick)
     ctx.cov["traces_validated_against_impl"] = nb + ne
@@ -127,7 +131,7 @@ def run(ctx):
     ctx.cov["distinct_nontrivial"] = hits
     ctx.cov["engines"].append({"name": "vdbg schedule replay", "role": "behaviours of Debugger.tla forced on the real DebuggerContext through hook H4", "schedules": nb})
     ctx.assumptions += ["thread::park has no spurious wake-ups (true of this toolchain's futex implementation; the documentation allows them)",
-                        "each run gets its own channel; the grammar is fixed (top = _{ a ~ b ~ a ~ b? } on \"xyx\"), the protocol does not depend on it",
+                        "each run gets its own channel; the grammar is top = { a ~ b ~ a ~ b? } on \"xyx\" (directed scripts also with a silent top rule)",
                         "an enabled step that does not happen within 5 s is a mismatch; a stuck end is confirmed when run() has not returned after 2 s of free running"]
 
 
@@ -140,10 +144,15 @@ SCRIPTS = [
     ["add:a", "add:b", "run", "recv", "delall", "cont", "recv", "add:b", "run", "recv"],  # delete all, then a new set and a restart
     ["cont", "add:a", "run", "run", "recv", "cont", "recv"],                              # continue before any run; restart at once
     ["add:a", "run", "cont", "cont", "recv", "recv", "cont", "recv"],                     # continues issued ahead of the receives
+    ["add:a", "run", "recv", "cont", "recv", "run", "recv", "cont", "recv"],              # restart while the parser waits at its last breakpoint
+    ["add:b", "run", "recv", "run", "recv", "cont", "recv", "cont", "recv"],              # restart while the parser waits at its first breakpoint
 ]
 
 
-def _replay_behs(ctx, vd, cap, behs, tag, limit):
+SILENT_TOP = 'a = { "x" }\nb = { "y" }\ntop = _{ a ~ b ~ a ~ b? }\n'
+
+
+def _replay_behs(ctx, vd, cap, behs, tag, limit, grammar=None):
     """Forces behaviours (deduplicated, at most `limit`, spread evenly) on the real debugger; returns (replayed, with a hit)."""
     seen = set()
     uniq = []
@@ -162,7 +171,8 @@ def _replay_behs(ctx, vd, cap, behs, tag, limit):
     if not uniq:
         return (0, 0)
     out = os.path.join(ctx.work, "behrep_%s_%d.ndjson" % (tag, cap))
-    s = run_json([vd, "replay", "--cap", str(cap), "--behaviours", bf, "--out", out], timeout=6000)
+    s = run_json([vd, "replay", "--cap", str(cap), "--behaviours", bf, "--out", out], timeout=6000,
+                 env={"VDBG_GRAMMAR": grammar} if grammar else None)
     hits = 0
     for rec in read_ndjson(out):
         b = rec["behaviour"]
